@@ -1,12 +1,12 @@
 package main
 
 import (
-	"os"
-	"reflect"
 	"fmt"
 	"go/constant"
 	"go/token"
 	"go/types"
+	"os"
+	"reflect"
 	"strings"
 
 	"golang.org/x/tools/go/ssa"
